@@ -3,13 +3,13 @@ module verif/h1
 go 1.20
 
 require (
+	github.com/spf13/pflag v1.0.5
 	k8s.io/gengo v0.0.0
 	verif/common v0.0.0
 )
 
 require (
 	github.com/go-logr/logr v0.2.0 // indirect
-	github.com/spf13/pflag v1.0.5 // indirect
 	golang.org/x/tools v0.0.0-20200505023115-26f46d2f7ef8 // indirect
 	gopkg.in/yaml.v2 v2.2.8 // indirect
 	k8s.io/klog/v2 v2.2.0 // indirect
